@@ -32,6 +32,7 @@
 #include <unistd.h>
 #include <errno.h>
 #include <sys/mman.h>
+#include <sys/types.h>
 #include "TinyJAMBU.h"
 
 /* internal entry points the repository's own unit tests also use */
@@ -668,9 +669,20 @@ static void op_pbkdf2(void)
 #define MAXSCRIPT 4096
 static struct { int n; unsigned char bytes[32]; } script[MAXSCRIPT];   /* n = bytes delivered; n < 0: claim 32 but ... unused */
 static int script_len, script_pos;
-static struct { int n; unsigned char bytes[32]; size_t asked; int udok; } calls[MAXSCRIPT];
+static struct { int n; unsigned char bytes[32]; size_t asked; int udok; int os; long at; } calls[MAXSCRIPT];
 static int ncalls;
 static int ud_cookie;
+/* output buffer of the generate call in progress (to observe how much had been written at each request) */
+static const unsigned char *gen_out; static size_t gen_size; static int gen_pf;
+
+static long written_so_far(void)
+{
+    size_t i;
+    if (!gen_out) return 0;
+    for (i = gen_size; i > 0; i--) if (gen_out[i - 1] != (unsigned char)gen_pf) break;
+    i = ((i + 31) / 32) * 32;          /* output is produced in whole 32-byte blocks before a request */
+    return (long)(i > gen_size ? gen_size : i);
+}
 
 /* the scripted source: delivers the next scripted item; when the script runs dry it delivers
  * a full block derived from the invocation number (so long histories stay distinguishable) */
@@ -685,15 +697,40 @@ static size_t scripted_cb(void *user_data, unsigned char *buf, size_t size)
     if (ncalls < MAXSCRIPT) {
         calls[ncalls].n = n; memcpy(calls[ncalls].bytes, tmp, 32); calls[ncalls].asked = size;
         calls[ncalls].udok = (user_data == (void *)&ud_cookie);
+        calls[ncalls].os = 0; calls[ncalls].at = written_so_far();
         ncalls++;
     }
     return (size_t)(n < 0 ? 0 : n);
 }
+
+#ifdef TJD_WRAP_GETRANDOM
+/* The operating system's entropy call, scripted: "full:<hex>" succeeds with those bytes, anything else is a
+ * permanent failure (EIO).  Linked with -Wl,--wrap=getrandom so that the library's built-in system source
+ * (tinyjambu_prng_init, or a NULL callback) is served from the plan's script and logged like a callback. */
+ssize_t __wrap_getrandom(void *buf, size_t len, unsigned flags)
+{
+    int n; unsigned char tmp[32];
+    (void)flags;
+    if (script_pos < script_len) { n = script[script_pos].n; memcpy(tmp, script[script_pos].bytes, 32); }
+    else { n = 32; gen_data(tmp, 32, 0xE000 + (uint64_t)script_pos, 'r'); }
+    script_pos++;
+    if (n != 32) n = 0;
+    if (n) memcpy(buf, tmp, len < 32 ? len : 32);
+    if (ncalls < MAXSCRIPT) {
+        calls[ncalls].n = n; memcpy(calls[ncalls].bytes, tmp, 32); calls[ncalls].asked = len;
+        calls[ncalls].udok = 1; calls[ncalls].os = 1; calls[ncalls].at = written_so_far();
+        ncalls++;
+    }
+    if (!n) { errno = EIO; return -1; }
+    return (ssize_t)len;
+}
+#endif
 static void jentropy(void)
 {
     printf(",\"ent\":[");
     for (int i = 0; i < ncalls; i++) {
-        printf("%s{\"n\":%d,\"asked\":%ld,\"ud\":%d,\"bytes\":[", i ? "," : "", calls[i].n, (long)calls[i].asked, calls[i].udok);
+        printf("%s{\"n\":%d,\"asked\":%ld,\"ud\":%d,\"os\":%d,\"at\":%ld,\"bytes\":[", i ? "," : "", calls[i].n,
+               (long)calls[i].asked, calls[i].udok, calls[i].os, calls[i].at);
         for (int j = 0; j < (calls[i].n > 0 ? calls[i].n : 0); j++) printf(j ? ",%u" : "%u", calls[i].bytes[j]);
         printf("]}");
     }
@@ -751,7 +788,9 @@ static void op_pgen(void)
     int pf = (int)kvi("pf", 0xA5);
     memset(out.p, pf, size);
     ncalls = 0;
+    gen_out = out.p; gen_size = size; gen_pf = pf;
     tinyjambu_prng_generate((tinyjambu_prng_state_t *)o->p, size ? out.p : gptr(&out), size);
+    gen_out = NULL;
     emit_obj("PGen", o); jint("size", (long)size);
     if (size <= BIGLOG) jbytes("out", out.p, size);
     else {
@@ -760,6 +799,7 @@ static void op_pgen(void)
         for (size_t i = 32; i + 32 <= size; i += 32) if (!memcmp(out.p + i, out.p + i - 32, 32)) rep++;
         jbytes("first", out.p, 32); jbytes("last", out.p + size - 32, 32); jint("repeats", (long)rep);
     }
+    if (size <= BIGLOG) jint("repeats", 0);
     jint("ocanary", gcanary(&out)); jentropy(); jend();
     gfree(&out);
 }
